@@ -179,6 +179,37 @@ def run(prop, tier, seed, repo, jobs):
                     shutil.rmtree(d, ignore_errors=True)
         except Exception as e:   # pragma: no cover
             inconclusive.append('native probe of corrupted records failed: %s' % e)
+    extra_assumptions = []
+    if prop == 'C18':
+        # "identically whether it was requested from the importing project ... or from its own project directory":
+        # what main() resolves the same target to, entered in either project
+        try:
+            from . import mainrun
+            extra_assumptions.append(mainrun.ASSUMPTION)
+            res = mainrun.entry_independence((tier, repo))
+            if res['error']:
+                inconclusive.append('entry independence: %s' % res['error'])
+            else:
+                fns |= set(res['functions'])
+                paths += res['paths']
+                for ob in res['obligations']:
+                    nob += 1
+                    if ob['verdict'] == 'unsat':
+                        ndis += 1
+                        samples.append({'case': 'main() entered in /r (q::a) and in /q (a)', 'obligation': ob['name'], 'verdict': 'unsat'})
+                        continue
+                    nat = mainrun.native_entry_independence(repo)
+                    confirmed = nat['run1_rc'] == 0 and (nat['run2_rc'] != 0 or bool(nat['run2_spawned']))
+                    rpath = os.path.join(common.REPLAYS, 'C18-entry-independence.json')
+                    os.makedirs(common.REPLAYS, exist_ok=True)
+                    json.dump({'kind': 'incr', 'obligation': ob, 'native': nat, 'confirmed': confirmed}, open(rpath, 'w'), indent=1, default=str)
+                    if confirmed:
+                        violations.append(rpath)
+                        samples.append({'obligation': ob['name'], 'verdict': 'sat (reproduced natively: built from the importing project, rebuilt when asked from its own directory)', 'detail': ob['detail'][:300]})
+                    else:
+                        inconclusive.append('%s: not reproduced natively (replay %s)' % (ob['name'], rpath))
+        except Exception as e:   # pragma: no cover
+            inconclusive.append('entry independence: %s' % e)
     wall = time.time() - t0
     coverage = {
         'explanation': 'symbolic execution of the real incremental::run (and everything below it) over a symbolic file system: every feasible path of two (C05: three) invocations is enumerated by the executor with z3 deciding feasibility, and each obligation is a z3 query per path against a reference semantics',
@@ -191,5 +222,5 @@ def run(prop, tier, seed, repo, jobs):
         'outside_claim': ['hash collisions', 'files outside the path universe / more files than the universe', 'mtime granularity of real file systems', 'bincode internals (prefix-undecodability assumed)'],
         'exhaustive': False,
     }
-    common.write_evidence(prop, tier, seed, 'other', coverage, ASSUMPTIONS, wall, len(violations))
+    common.write_evidence(prop, tier, seed, 'other', coverage, ASSUMPTIONS + extra_assumptions, wall, len(violations))
     return common.finish(prop, violations, inconclusive, known_lines)
